@@ -211,6 +211,16 @@ def run(ctx):
         try:
             ind, data, shape, lshape = BilinearForm(bil, dtype=dtype)._assemble(ub, vb, **dict(kwargs))
             A = BilinearForm(bil, dtype=dtype).assemble(ub, vb, **dict(kwargs))
+            if rng.random() < 0.35:
+                # the threaded kernel is part of the statement ("serial and threaded kernels")
+                nthr = rng.choice([1, 2, 3, 5])
+                tind, tdata, tshape, _ = BilinearForm(bil, dtype=dtype, nthreads=nthr)._assemble(ub, vb, **dict(kwargs))
+                ctx.count("threaded-kernel")
+                if not (np.array_equal(tind, ind) and tshape == shape and
+                        np.allclose(tdata, data, rtol=1e-13, atol=1e-13 * max(1.0, float(np.abs(data).max())
+                                                                              if data.size else 1.0))):
+                    ctx.violation("threaded assembly differs from serial assembly",
+                                  {"case": descr2, "nthreads": nthr}, {"what": "threaded", "basis": descr["basis"]})
             if vb is ub:
                 lind, ldata, lshp, _ = LinearForm(lin, dtype=dtype)._assemble(vb, **dict(kwargs))
                 bvec = LinearForm(lin, dtype=dtype).assemble(vb, **dict(kwargs))
